@@ -352,6 +352,8 @@ class Exec(object):
                 theirs += [axis_label(self.coords(op[3]), i) for i in range(nd)]
         elif nd > 0:
             return False
+        if nd != len(d.shape) or (d.coords is None) != (op[3] is None):
+            return False
         return mine == sorted(theirs)
 
     def in_model_domain(self, op):
@@ -946,10 +948,7 @@ class Tracker(object):
         co = None
         if d.coords is not None:
             spec = self.ex.coords_spec[self.ex.coords_id(d.coords)]
-            if len(d.components) == 0:
-                co = list(spec) if share_coords else None
-            else:
-                co = list(spec) if share_coords else self.new_coords(spec[1], spec[2])
+            co = list(spec) if share_coords else self.new_coords(spec[1], spec[2])
         return ['updfrom', list(shape), list(mains), co, dl]
 
 
